@@ -223,11 +223,18 @@ impl Check for C03Check {
     fn run_case(&self, idx: u64, seed: u64, _tier: Tier) -> CaseResult {
         let mut res = CaseResult::default();
         let mut r = Rng::new(seed);
-        let (mut code, family) = gen_program(&mut r);
+        // The first cases go through every (opcode applied to its own result
+        // x use of the grown value) combination once, whatever the seed.
+        let (mut code, family) = if idx < workload::GROWTH_COMBOS { (workload::gen_growth_combo(idx, &mut r), "growth_combination") } else { gen_program(&mut r) };
         if r.chance(1, 10) {
             workload::end_on_last_jumpdest(&mut code);
         }
-        let knobs = gen_knobs(&mut r, &code);
+        let mut knobs = gen_knobs(&mut r, &code);
+        if idx < workload::GROWTH_COMBOS {
+            // the chain must be allowed to get long
+            knobs.value_size_limit = *r.pick(&[250usize, 1000]);
+            knobs.gas_limit = 30_000_000;
+        }
         res.probe(&format!("workload_{family}"));
         let scheds = [Sched::natural(0), Sched::natural(r.next()), Sched::adversarial(r.next(), 700, MENU_ALL)];
         for sched in &scheds {
